@@ -73,16 +73,19 @@ groups in code order, ascending inside a group; negative codes dropped -/
 def groupSortedIndexer (codes : List Int) (ngroups : Nat) : List Nat :=
   ((List.range ngroups).map fun g => positionsOf codes (Int.ofNat g)).flatten
 
-/-- `_monotonic_factorization`: run detection on a non-decreasing prefix.
+/-- `_monotonic_factorization`: run detection on a non-decreasing, null-free prefix.
 Returns (cutoff, codes of the prefix, labels).  `lt`/`gt` are the element comparisons (both
-false when either side is a float NaN). -/
-def monotonicFactorization {α : Type} (lt gt : α → α → Bool) : List α → Nat × List Nat × List α
+false when either side is a float NaN / NaT); `isNull x` is the source's `x != x`.
+The prefix ends at the first decrease or the first null; a null first element gives cutoff 0. -/
+def monotonicFactorization {α : Type} (lt gt : α → α → Bool) (isNull : α → Bool) :
+    List α → Nat × List Nat × List α
   | [] => (0, [], [])
   | x :: xs =>
+    if isNull x then (0, [], []) else
     let rec go (prev : α) (i : Nat) (codes : List Nat) (labels : List α) : List α → Nat × List Nat × List α
       | [] => (i, codes.reverse, labels.reverse)
       | y :: ys =>
-        if lt y prev then (i, codes.reverse, labels.reverse)
+        if lt y prev || isNull y then (i, codes.reverse, labels.reverse)
         else if gt y prev then go y (i + 1) (labels.length :: codes) (y :: labels) ys
         else go y (i + 1) ((labels.length - 1) :: codes) labels ys
     go x 1 [0] [x] xs
